@@ -55,6 +55,9 @@ pub fn named_arg(it: &J) -> NamedArg {
         Some(J::Array(v)) => v.iter().filter_map(J::as_str).collect(),
         _ => vec![],
     };
+    // a second variable consulted when the first one is not set
+    let e2 = s(it, "env2");
+    let envs: Vec<&str> = if e2.is_empty() { envs } else { envs.into_iter().chain(std::iter::once(e2)).collect() };
     for e in envs {
         n = Some(match n {
             None => env(leak(e)),
